@@ -28,6 +28,8 @@ open Atomman.Generated
     apinorm STYLE FLAG px py pz n v(9) o(3) pos(3n)     `system.normalize(STYLE, FLAG)` (generated `normalizeBody`)
       -> "R ret(0/1) | vects(9) origin(3) | pos(3n) | transform(9)"  or err:value / err:assert
     apilmp FLAG px py pz n …                            `atomman.lammps.normalize(system, FLAG)`
+    copykeys hex(key) …                                  keys of the atoms of the copy `normalize` works on (`-` = empty name)
+      -> hex(key) …                                     (`copyKeys` on the generated explicit / reserved lists; ASCII names)
       FLAG / SCALE / STYLE: omit | none | b0 | b1 | i:<int> | s:<text without blanks> | f0 | f1 | np0 | np1
   errors: err:format (malformed line), err:value (singular cell or no atoms),
           err:assert (an assertion of the code fails: box lengths not positive, transform not orthonormal)
@@ -151,6 +153,26 @@ def apiLmp (c : CSys Rat) (flag : Option PyVal) : String :=
     let ret := WrapSource.lmpReturnsTransform (flag.getD WrapSource.lmpFlagDefault)
     "R " ++ showBool ret ++ " | " ++ showBox z.box ++ " | " ++ showRats (flat z.pos) ++ " | " ++ showRats z.transform.toList
 
+/-- hex digits -> text (names of per-atom properties travel as hex: they may be empty or contain blanks). -/
+def hexVal (c : Char) : Option Nat :=
+  if '0' ≤ c ∧ c ≤ '9' then some (c.toNat - '0'.toNat)
+  else if 'a' ≤ c ∧ c ≤ 'f' then some (c.toNat - 'a'.toNat + 10)
+  else none
+
+def unhexChars : List Char → Option (List Char)
+  | [] => some []
+  | a :: b :: rest =>
+    match hexVal a, hexVal b, unhexChars rest with
+    | some x, some y, some r => some (Char.ofNat (16 * x + y) :: r)
+    | _, _, _ => none
+  | _ => none
+
+def unhex (t : String) : Option String := if t = "-" then some "" else (unhexChars t.toList).map String.ofList
+
+def hexDigit (n : Nat) : Char := if n < 10 then Char.ofNat ('0'.toNat + n) else Char.ofNat ('a'.toNat + n - 10)
+def hexOf (s : String) : String :=
+  if s = "" then "-" else String.ofList (s.toList.flatMap (fun c => [hexDigit (c.toNat / 16), hexDigit (c.toNat % 16)]))
+
 def handleApi (toks : List String) : Option String :=
   match toks with
   | "apiwrap" :: fl :: px :: py :: pz :: n :: rest =>
@@ -186,6 +208,10 @@ def handleApi (toks : List String) : Option String :=
       if M3.det r.box.vects = 0 || r.pos.isEmpty then some (err "value") else
       some (apiLmp ⟨r.box, none, r.pbc, r.pos⟩ (some (flag.getD WrapSource.normFlagDefault)))
     | _, _, _ => some (err "format")
+  | "copykeys" :: ks =>
+    match ks.mapM unhex with
+    | some keys => some (" ".intercalate ((copyKeys WrapSource.atomsCopyExplicit WrapSource.atomsCopyReserved keys).map hexOf))
+    | none => some (err "format")
   | "apilmp" :: fl :: px :: py :: pz :: n :: rest =>
     match parsePyArg fl, parseReq px py pz n rest with
     | some flag, some r =>
